@@ -610,7 +610,8 @@ class Gen:
             lambda: "intrinsic {+:: }%s" % r.pick(["sin", "cos", "max"]),
             lambda: "common /blk/ %s, %s(%s)" % (nm(), nm(ARR_NAMES), self.small_int()),
             lambda: "common // %s" % nm(),
-            lambda: "common %s, %s" % (nm(), nm(INT_NAMES)),
+            lambda: ("common /blk/ %s" if self.avoid("no_blank_common_without_slashes") else "common %s, %s")
+            .replace("/blk/ %s", "/blk/ %s, %s") % (nm(), nm(INT_NAMES)),
             lambda: "equivalence (%s, %s)" % (nm(), nm(ARR_NAMES) + "(1)"),
             lambda: "namelist /nl/ %s, %s" % (nm(), nm(INT_NAMES)),
             lambda: "data %s /%s/" % (nm(), r.pick(REAL_LITS)),
@@ -686,8 +687,11 @@ class Gen:
         for prev, it in zip(items, items[1:]):
             if prev in ("/", ":") or it in ("/", ":"):
                 out += "{,}" + it
-            elif re.fullmatch(r"[-+]?\d+[pP]", prev) and re.match(r"\d*[fFeEdDgG]", it):
-                out += "{,}" + it
+            elif re.fullmatch(r"[-+]?\d+[pP]", prev) and re.match(r"\d*(?:[fFdDgG]|[eE][nNsS]?)\d", it):
+                if prev[0] in "+-" and self.avoid("no_signed_kP_without_comma"):
+                    out += ", " + it
+                else:
+                    out += "{,}" + it
             else:
                 out += ", " + it
         return out
@@ -765,11 +769,11 @@ class Gen:
             nm = self.name(SUB_NAMES)
             if r.chance(15):
                 nm = "%s%%%s" % (self.name(OBJ_NAMES), r.pick(["m", "run"]))
-            if not args and r.chance(50):
-                return S("call %s" % nm, "call", removable=True)
+            if not args:
+                return S("call %s{-()}" % nm, "call", removable=True)
             return S("call %s(%s)" % (nm, ", ".join(args)), "call", removable=True)
         if c == 11:
-            inner = self.assign_stmt() if r.chance(70) else S("call %s" % self.name(SUB_NAMES), "call")
+            inner = self.assign_stmt() if r.chance(70) else S("call %s{-()}" % self.name(SUB_NAMES), "call")
             return S("if (%s) %s" % (self.expr("log", 2), inner.tmpl), "if_stmt", removable=True)
         if c == 12:
             return S("where (%s > 0) %s = %s" % (self.name(ARR_NAMES), self.name(ARR_NAMES), self.expr("num", 1)),
@@ -848,7 +852,7 @@ class Gen:
                          removable=True)
             return S("print *", "print", removable=True)
         if c == 24:
-            return S("inquire(%s, %s)" % (r.pick(["unit = 10", "file = 'f.txt'", "10"]),
+            return S("inquire(%s, %s)" % (r.pick(["unit = 10", "file = 'f.txt'", "{+unit = }10"]),
                                           r.pick(["exist = ok", "opened = flag", "iostat = ios"])), "inquire",
                      removable=True)
         if c == 25:
@@ -1264,7 +1268,7 @@ class Gen:
             ex = self.exec_part(sctx)
             if r.chance(10) and depth <= 1 and not ctx.get("internal"):
                 ex.insert(r.n(0, len(ex)), S("entry %s%s" % (r.pick(["ent1", "ent2"]),
-                                                            r.pick(["", "()", "(x)"]) if not is_fun else "(x)"), "entry"))
+                                                            r.pick(["{+()}", "(x)"]) if not is_fun else "(x)"), "entry"))
             segs = [(None, spec + ex)]
             if depth <= 1 and not ctx.get("internal") and r.chance(20):
                 inner = [self.subprogram(self._sub(ctx, internal=True), depth=depth + 1)
